@@ -15,7 +15,8 @@ PID = "C16"
 RULE = ("one case = one weight operand spec x every input operand spec of one kind (grid: fixed "
         "signed/unsigned bits 1..8 quick / ..16 thorough x every int_bits 0..bits-sign, built from "
         "quantized_bits / quantized_relu / quantized_tanh / 'int8'; power-of-two signed/unsigned bits "
-        "1..8 quick / ..10 thorough (..12 in the random pairs) x max_value in {none, 2^k at both ends of the exponent range, one beyond, around 0}; "
+        "1..8 quick / ..10 thorough (..12 in the random pairs) x max_value in {none, 2^k at both ends of "
+        "the exponent range, one beyond, around 0}; "
         "ternary, binary +-1, binary 0/1 (three builders each incl. quantized_relu(1,1)), float "
         "(None, fp32, fp16)) plus seeded random pairs with a wide operand (bits 9..16 quick, 17..24 "
         "thorough).  The contract on make_multiplier checks every product of the operand extreme "
